@@ -1840,6 +1840,10 @@ feature! {
             }
         }
 
+        fn event_enabled(&self, event: &Event<'_>, ctx: Context<'_, C>) -> bool {
+            self.iter().all(|s| s.event_enabled(event, ctx.clone()))
+        }
+
         fn on_event(&self, event: &Event<'_>, ctx: Context<'_, C>) {
             for s in self {
                 s.on_event(event, ctx.clone());
@@ -1861,6 +1865,12 @@ feature! {
         fn on_close(&self, id: span::Id, ctx: Context<'_, C>) {
             for s in self {
                 s.on_close(id.clone(), ctx.clone());
+            }
+        }
+
+        fn on_id_change(&self, old: &span::Id, new: &span::Id, ctx: Context<'_, C>) {
+            for s in self {
+                s.on_id_change(old, new, ctx.clone());
             }
         }
 
